@@ -441,6 +441,9 @@ fn inspections(pool: &[KeyInfo], b: &SBlock, d: &SDir, path: &str, out: &mut Vec
 // ------------------------------------------------------------------ running the real code
 
 /// the `TZ` the next verifications run under (`None`: the variable is left alone)
+/// name the link directory through a symbolic link and `..` in the next verifications
+pub static SPELL_LINK_DIR: std::sync::Mutex<bool> = std::sync::Mutex::new(false);
+
 pub static PROCESS_TZ: std::sync::Mutex<Option<String>> = std::sync::Mutex::new(None);
 
 pub struct Outcome {
@@ -500,7 +503,16 @@ fn regular_files(dir: &Path, rel: &str, out: &mut BTreeMap<String, (u64, std::ti
 /// path, size and time, other content. What the verifier answers depends on what the files say now.
 pub fn run_at(pool: &[KeyInfo], s: &Scenario, root: &Path, reversed: bool) -> Outcome {
     let tmp = root;
-    let links = tmp.join("links");
+    // how the link directory is named to the verifier: plainly, or through a symbolic link and back out of
+    // it (`<root>/hop/../links`, `hop -> elsewhere/deep`): the operating system says which directory that is
+    // (`<root>/elsewhere/links`), and that is where the scenario lies
+    let spelled = *SPELL_LINK_DIR.lock().unwrap();
+    let links = if spelled { tmp.join("elsewhere").join("links") } else { tmp.join("links") };
+    if spelled {
+        let _ = std::fs::create_dir_all(tmp.join("elsewhere").join("deep"));
+        let _ = std::fs::remove_file(tmp.join("hop"));
+        let _ = std::os::unix::fs::symlink(tmp.join("elsewhere").join("deep"), tmp.join("hop"));
+    }
     let cwd = tmp.join("cwd");
     let mut before = BTreeMap::new();
     regular_files(&links, "", &mut before);
@@ -544,7 +556,7 @@ pub fn run_at(pool: &[KeyInfo], s: &Scenario, root: &Path, reversed: bool) -> Ou
     }
     let old = std::env::current_dir().unwrap();
     std::env::set_current_dir(&cwd).unwrap();
-    let links_str = links.to_str().unwrap().to_string();
+    let links_str = if spelled { tmp.join("hop").join("..").join("links").to_str().unwrap().to_string() } else { links.to_str().unwrap().to_string() };
     let name = s.name.clone();
     let refile = s.mem_refile;
     // the time zone of the verifying process (`TZ`): an instant is an instant wherever the verifier sits.
